@@ -2,7 +2,6 @@
 From Coq Require Import Arith ZArith NArith List Bool Lia.
 Import ListNotations.
 Require Import TV.Spec.DetSamplerSpec TV.gen.Gen_sampler_flags TV.Model.SamplerApi.
-Set Default Timeout 60.
 Local Open Scope nat_scope.
 
 (* ====================================================================== rows: _sample_batches *)
